@@ -80,7 +80,7 @@ def exhaustive(maxn):
 def run(ctx):
     rng = ctx.rng
     S.explore(ctx, S.corpus_cases(PROP), KINDS, THEOREM, label="corpus: ", nontrivial=NONTRIVIAL)
-    n = 2500 if ctx.thorough() else 450
+    n = 30000 if ctx.thorough() else 3000
     cases = [S.gen_case(rng, "C13") if rng.random() < 0.6 else S.gen_inflight_case(rng) for _ in range(n)]
     runs = S.explore(ctx, cases, KINDS, THEOREM, nontrivial=NONTRIVIAL)
     for c in cases[:2]:
